@@ -21,6 +21,7 @@ import (
 	"net"
 	"net/http/httptest"
 	"net/url"
+	"os"
 	"strings"
 	"sync"
 	"testing"
@@ -38,6 +39,8 @@ type c20Event struct {
 
 type c20Subscriber struct {
 	conn   net.Conn
+	br     *bufio.Reader
+	reads  bool
 	mu     sync.Mutex
 	events []c20Event
 	cond   *sync.Cond
@@ -45,8 +48,20 @@ type c20Subscriber struct {
 }
 
 func c20Connect(addr string, read bool) (*c20Subscriber, error) {
-	conn, err := tls.Dial("tcp", addr, &tls.Config{InsecureSkipVerify: true})
+	raw, err := net.DialTimeout("tcp", addr, 10*time.Second)
 	if err != nil {
+		return nil, err
+	}
+	if !read {
+		// a subscriber that never reads: a small receive buffer, so that the daemon's per-subscriber queue (not the
+		// kernel) is what fills up after a few dozen events
+		if tc, ok := raw.(*net.TCPConn); ok {
+			tc.SetReadBuffer(2048)
+		}
+	}
+	conn := tls.Client(raw, &tls.Config{InsecureSkipVerify: true})
+	if err := conn.Handshake(); err != nil {
+		raw.Close()
 		return nil, err
 	}
 	fmt.Fprintf(conn, "CONNECT /eventmon/v0 HTTP/1.0\n\n")
@@ -57,11 +72,18 @@ func c20Connect(addr string, read bool) (*c20Subscriber, error) {
 		return nil, fmt.Errorf("connect: %q %v", status, err)
 	}
 	br.ReadString('\n')
-	s := &c20Subscriber{conn: conn}
+	s := &c20Subscriber{conn: conn, br: br, reads: read}
 	s.cond = sync.NewCond(&s.mu)
 	if read {
+		s.startReading()
+	}
+	return s, nil
+}
+
+func (s *c20Subscriber) startReading() {
+	{
 		go func() {
-			dec := json.NewDecoder(br)
+			dec := json.NewDecoder(s.br)
 			for {
 				var ev c20Event
 				if err := dec.Decode(&ev); err != nil {
@@ -78,7 +100,62 @@ func c20Connect(addr string, read bool) (*c20Subscriber, error) {
 			}
 		}()
 	}
-	return s, nil
+}
+
+// waitCert waits until an event carrying exactly these certificate bytes has been received.
+func (s *c20Subscriber) waitCert(der []byte, maxWait time.Duration) bool {
+	deadline := time.Now().Add(maxWait)
+	s.mu.Lock()
+	defer s.mu.Unlock()
+	from := 0
+	for {
+		for ; from < len(s.events); from++ {
+			if bytes.Equal(s.events[from].CertData, der) {
+				return true
+			}
+		}
+		if s.err != nil || time.Now().After(deadline) {
+			return false
+		}
+		go func() { time.Sleep(20 * time.Millisecond); s.cond.Broadcast() }()
+		s.cond.Wait()
+	}
+}
+
+func (s *c20Subscriber) waitEvent(f func(e c20Event) bool, maxWait time.Duration) bool {
+	deadline := time.Now().Add(maxWait)
+	s.mu.Lock()
+	defer s.mu.Unlock()
+	from := 0
+	for {
+		for ; from < len(s.events); from++ {
+			if f(s.events[from]) {
+				return true
+			}
+		}
+		if s.err != nil || time.Now().After(deadline) {
+			return false
+		}
+		go func() { time.Sleep(10 * time.Millisecond); s.cond.Broadcast() }()
+		s.cond.Wait()
+	}
+}
+
+func (s *c20Subscriber) has(f func(e c20Event) bool) bool {
+	s.mu.Lock()
+	defer s.mu.Unlock()
+	for _, e := range s.events {
+		if f(e) {
+			return true
+		}
+	}
+	return false
+}
+
+func (s *c20Subscriber) received() int {
+	s.mu.Lock()
+	defer s.mu.Unlock()
+	return len(s.events)
 }
 
 // upTo waits for the sentinel and returns every event received before it
@@ -104,7 +181,7 @@ func (s *c20Subscriber) upTo(sentinel string, maxWait time.Duration) ([]c20Event
 }
 
 func TestVerifC20(t *testing.T) {
-	rep := newVerifReport("C20", "(publication) a subscriber connected like keymaster-eventmond (CONNECT /eventmon/v0 on the admin port); for every issuing path (certgen ssh/x509/kubernetes with several key types, automation mint, automation refresh, cloud role) and for password login, web login, second-factor and service-provider login events: operation, then sentinel; the certificate / login event must be in the subscriber's FIFO before the sentinel with bytes equal to those returned; with 0..3 subscribers one of which never reads, a burst of issuances must complete; class = (path or event kind, subscribers, outcome)")
+	rep := newVerifReport("C20", "(publication) a subscriber connected like keymaster-eventmond (CONNECT /eventmon/v0 on the admin port); for every issuing path (certgen ssh/x509/kubernetes with several key types, automation mint, automation refresh, cloud role) and for password login, web login, second-factor and service-provider login events: operation, then sentinel; the certificate / login event must be in the subscriber's FIFO before the sentinel with bytes equal to those returned; with 0..3 subscribers one of which never reads (small receive buffer, so the daemon's queue for it overflows), a burst of issuances must complete and every certificate of it must reach each subscriber that reads; class = (path or event kind, subscribers, outcome)")
 	defer rep.Finish()
 	verifInstallFakeSTS()
 	vip := newVerifFakeVIP()
@@ -315,26 +392,98 @@ func TestVerifC20(t *testing.T) {
 				subs = append(subs, s)
 			}
 		}
-		done := make(chan int, 1)
+		// fill the path to the non-reading subscriber beyond anything the kernel can buffer (its send-buffer ceiling
+		// plus a margin), so that the daemon's own queue for it is full when the certificates are issued; reading
+		// subscribers are waited for after every event and never have more than one outstanding
+		if nSubs >= 1 {
+			fill := 4 << 20
+			if b, err := os.ReadFile("/proc/sys/net/ipv4/tcp_wmem"); err == nil {
+				if f := strings.Fields(string(b)); len(f) == 3 {
+					var v int
+					fmt.Sscanf(f[2], "%d", &v)
+					if v > 0 && v < 64<<20 {
+						fill = v
+					}
+				}
+			}
+			fill += 2 << 20
+			pad := strings.Repeat("p", 64<<10)
+			for k := 0; k*len(pad) < fill; k++ {
+				name := fmt.Sprintf("fill-%d-%d-%s", nSubs, k, pad)
+				verifPublishSentinel(name)
+				for _, s := range subs {
+					if s.reads {
+						s.waitEvent(func(e c20Event) bool { return e.AuthType == "verif-sentinel" && e.Username == name }, 2*time.Second)
+					}
+				}
+			}
+			rep.Extra[fmt.Sprintf("filler_bytes_published:subscribers=%d", nSubs)] = fill
+		}
+		type burstRes struct {
+			ok      int
+			starved map[string]interface{}
+			missed  bool
+		}
+		done := make(chan burstRes, 1)
 		go func() {
-			okN := 0
+			var res burstRes
 			for i := 0; i < burst; i++ {
 				q := verifCertReq("alice", "x509", verifPKIXPEM(verifUserECKey().Public()), "1h", nil)
 				q.Cookies = verifCk(aliceCk)
-				if env.Do(q.Build()).Code == 200 {
-					okN++
+				resp := env.Do(q.Build())
+				if resp.Code != 200 {
+					continue
+				}
+				res.ok++
+				// every subscriber that reads - and that is waited for after each certificate, so it never has more
+				// than one event outstanding - must receive each certificate, whatever the non-reading one does
+				cert, err := verifParseX509PEM(resp.Body)
+				if err != nil {
+					continue
+				}
+				for si, s := range subs {
+					if !s.reads {
+						continue
+					}
+					if s.waitCert(cert.Raw, 5*time.Second) {
+						rep.Count("burst_deliveries_to_reading_subscribers", 1)
+						continue
+					}
+					// not there yet: decide by order, not by time - later events that do arrive prove it was skipped
+					res.missed = true
+					later := false
+					for k := 0; k < 60 && !later; k++ {
+						name := fmt.Sprintf("burst-end-%d-%d-%d", nSubs, i, k)
+						verifPublishSentinel(name)
+						time.Sleep(50 * time.Millisecond)
+						later = s.has(func(e c20Event) bool { return e.Type == "Auth" && e.AuthType == "verif-sentinel" && e.Username == name })
+					}
+					if later && !s.waitCert(cert.Raw, 0) {
+						res.starved = map[string]interface{}{"subscribers": nSubs, "reading_subscriber": si, "certificate_number": i, "non_reading_subscribers": 1,
+							"note": "a later event reached this subscriber, the certificate never did"}
+					}
+					break
+				}
+				if res.missed {
+					break
 				}
 			}
-			done <- okN
+			done <- res
 		}()
 		select {
-		case n := <-done:
-			rep.Eval(fmt.Sprintf("burst|subscribers=%d|completed=%v", nSubs, n == burst))
+		case res := <-done:
+			n := res.ok
+			rep.Eval(fmt.Sprintf("burst|subscribers=%d|completed=%v|starved=%v", nSubs, n == burst, res.starved != nil))
 			rep.Count("burst_issuances", n)
-			if n != burst {
+			switch {
+			case res.starved != nil:
+				rep.Violate("C20/reading-subscriber-starved-by-stalled-one", "with one subscriber not reading, a certificate was not published to a subscriber that reads promptly", res.starved)
+			case res.missed:
+				rep.Inconc("burst with %d subscribers: a certificate did not reach a reading subscriber within 5 s and no later event arrived either (not judged)", nSubs)
+			case n != burst:
 				rep.Violate("C20/burst-failures", fmt.Sprintf("%d of %d issuances failed with %d subscribers", burst-n, burst, nSubs), nil)
 			}
-		case <-time.After(120 * time.Second):
+		case <-time.After(180 * time.Second):
 			// only a goroutine blocked in the notifier is a violation; otherwise inconclusive
 			buf := make([]byte, 1<<20)
 			n := runtimeStack(buf)
@@ -343,6 +492,35 @@ func TestVerifC20(t *testing.T) {
 				rep.Violate("C20/slow-subscriber-blocks-issuance", "issuance is blocked inside the event notifier while a subscriber does not read", map[string]int{"subscribers": nSubs})
 			} else {
 				rep.Inconc("burst with %d subscribers did not finish within the watchdog", nSubs)
+			}
+		}
+		// how much of the burst the non-reading subscriber would still get: less than everything means its queue in the
+		// daemon was full during the burst (the situation the clause is about)
+		for _, s := range subs {
+			if s.reads {
+				continue
+			}
+			s.startReading()
+			last, same := -1, 0
+			for k := 0; k < 300 && same < 30; k++ { // until nothing more has arrived for 1.5 s
+				time.Sleep(50 * time.Millisecond)
+				if n := s.received(); n == last {
+					same++
+				} else {
+					last, same = n, 0
+				}
+			}
+			got := 0
+			s.mu.Lock()
+			for _, e := range s.events {
+				if len(e.CertData) > 0 {
+					got++
+				}
+			}
+			s.mu.Unlock()
+			rep.Extra[fmt.Sprintf("non_reading_subscriber_got_of_burst:subscribers=%d", nSubs)] = fmt.Sprintf("%d/%d", got, burst)
+			if got < burst {
+				rep.Count("bursts_where_stalled_queue_overflowed", 1)
 			}
 		}
 		for _, s := range subs {
@@ -354,6 +532,8 @@ func TestVerifC20(t *testing.T) {
 	}
 	rep.Floor("login_events_published", 4)
 	rep.Floor("burst_issuances", 300)
+	rep.Floor("burst_deliveries_to_reading_subscribers", 200)
+	rep.Floor("bursts_where_stalled_queue_overflowed", 1)
 }
 
 func evTypes(evs []c20Event) []string {
